@@ -35,8 +35,8 @@ def make_chooser(strategy: str, sseed: str, scn: dict) -> core.Chooser:
     victims = None
     if strategy == "stall":
         fnames = sorted(scn["program"]["funcs"])
-        chosen = set(rng.sample(fnames, max(1, len(fnames) // 3))) if fnames else set()
-        kind = rng.choice(["finish", "start"])
+        chosen = set(rng.sample(fnames, max(1, len(fnames) // rng.choice([2, 3])))) if fnames else set()
+        kind = rng.choice(["finish", "finish", "start"])
 
         def victims(p: core.Part) -> bool:  # noqa: F811
             info = p.info
